@@ -257,11 +257,28 @@ def r6(c):
     if len(ex) != 1:
         raise AnchorError("BlockExitFormatter.blocks_and_context: self.block_exit call not found")
 
+    loops = [l for l in gm.in_loop(ex[0]) if isinstance(l, ast.For)]
+    augs = [n for n in walk_no_nested(fn) if isinstance(n, ast.AugAssign) and isinstance(n.target, ast.Name)]
+    if not loops or not isinstance(loops[0].target, ast.Tuple) or not isinstance(loops[0].target.elts[0], ast.Name) or len({n.target.id for n in augs}) != 1:
+        raise AnchorError("BlockExitFormatter.blocks_and_context: row loop / running block level not found")
+    E, B = loops[0].target.elts[0].id, augs[0].target.id
+
     def ren(s):
-        return {"row is BlockEnd": "is_end", "BlockEnd is row": "is_end", "block_level == level": "at_level", "level == block_level": "at_level"}.get(s, s)
-    f = gm.formula(ex[0], G.GuardEnv(rename=ren))
+        return {f"{E} is BlockEnd": "is_end", f"BlockEnd is {E}": "is_end", f"{E} is BlockBegin": "is_begin", f"BlockBegin is {E}": "is_begin",
+                f"{B} == context.level": "at_level", f"context.level == {B}": "at_level"}.get(s, s)
+    env = G.GuardEnv(rename=ren)
+    # a row is never both markers
+    axiom = G.Not(G.And(G.Atom("is_begin"), G.Atom("is_end")))
+    f = gm.formula(ex[0], env, alias=True)
     spec = G.And(G.Atom("is_end"), G.Atom("at_level"), G.Atom("is_patch"))
-    c.check("C09.R6", G.equivalent(f, spec), repo.loc(tm, ex[0]), "BlockExitFormatter/exit-guard", f"block exit emitted under {G.show(f)}; expected BlockEnd ∧ back at entry level ∧ is_patch", key_text="exit-guard")
+    c.check("C09.R6", G.equivalent(G.And(f, axiom), G.And(spec, axiom)), repo.loc(tm, ex[0]), "BlockExitFormatter/exit-guard", f"block exit emitted under {G.show(f)}; expected BlockEnd ∧ back at entry level ∧ is_patch", key_text="exit-guard")
+    inc = [n for n in augs if isinstance(n.op, ast.Add) and norm(n.value) == "1"]
+    dec = [n for n in augs if isinstance(n.op, ast.Sub) and norm(n.value) == "1"]
+    ok = len(inc) == 1 and len(dec) == 1 and len(augs) == 2 and G.equivalent(G.And(gm.formula(inc[0], env, alias=True), axiom), G.And(G.Atom("is_begin"), axiom)) and \
+        G.equivalent(G.And(gm.formula(dec[0], env, alias=True), axiom), G.And(G.Atom("is_end"), axiom))
+    init = [n for n in walk_no_nested(fn) if isinstance(n, ast.Assign) and norm(n.targets[0]) == B]
+    ok = ok and len(init) == 1 and norm(Provenance(fn).resolve_alias(init[0].value)) == "context.level"
+    c.check("C09.R6", ok, repo.loc(tm, fn), "BlockExitFormatter/level-tracking", "the running block level does not start at context.level and move +1 on BlockBegin / -1 on BlockEnd", key_text="level-tracking")
     for q, d in tm.defs.items():
         if isinstance(d, ast.FunctionDef) and q.endswith(".block_exit") and not q.startswith("BlockExitFormatter."):
             sup = [x for x in calls_in(d) if isinstance(x.func, ast.Attribute) and x.func.attr == "block_exit" and isinstance(x.func.value, ast.Call) and call_name(x.func.value) == "super"]
